@@ -413,11 +413,12 @@ package parser
 //@   decreases len(stack)
 
 //@ func parser.(*parser).ident
-//@   use perr
+//@   use perr exprwf
 //@   requires p != nil && pOK(p.pos, len(p.tokens)) && toksIn(p.source, p.tokens)
 //@   ensures pOK(p.pos, len(p.tokens))
 //@   ensures @notfound: result1 != nil ==> result0 == nil && nf(result1) && cur(p.pos, len(p.tokens)) == old(cur(p.pos, len(p.tokens)))
 //@   ensures @found: result1 == nil ==> typeis(result0, "Ident") && old(p.pos) < len(p.tokens) && p.pos == old(p.pos) + 1 && (p.tokens[old(p.pos)].Kind == TokenIdentifier || p.tokens[old(p.pos)].Kind == TokenQuotedIdentifier)
+//@   ensures @span: result1 == nil ==> identOK(p.source, result0)
 //@   ensures @fields: result1 == nil ==> result0.Name == p.tokens[old(p.pos)].Value && result0.NameSpan == p.tokens[old(p.pos)].Span && result0.Quoted == (p.tokens[old(p.pos)].Kind == TokenQuotedIdentifier)
 //@   assigns p.pos
 
@@ -428,83 +429,315 @@ package parser
 //@   ensures result == opPrec(op)
 
 //@ func parser.(*parser).qualifiedIdent
-//@   use perr expr
+//@   use perr exprwf
 //@   requires p != nil && pOK(p.pos, len(p.tokens)) && toksIn(p.source, p.tokens)
 //@   ensures pOK(p.pos, len(p.tokens)) && old(cur(p.pos, len(p.tokens))) <= cur(p.pos, len(p.tokens))
 //@   ensures @notfound: nf(result1) ==> cur(p.pos, len(p.tokens)) == old(cur(p.pos, len(p.tokens))) && result0 == nil
-//@   ensures @wf: result1 == nil ==> exprWF(result0) && typeis(result0, "QualifiedIdent")
+//@   ensures @wf: result1 == nil ==> exprOK(p.source, result0) && typeis(result0, "QualifiedIdent")
+//@   ensures @progress: result1 == nil ==> old(cur(p.pos, len(p.tokens))) < cur(p.pos, len(p.tokens))
 //@   assigns p.pos
 //@ loop 1
-//@   invariant pOK(p.pos, len(p.tokens)) && old(cur(p.pos, len(p.tokens))) <= cur(p.pos, len(p.tokens))
-//@   invariant len(qid.Parts) > 0 && identsWFL(qid.Parts, len(qid.Parts))
+//@   invariant pOK(p.pos, len(p.tokens)) && old(cur(p.pos, len(p.tokens))) < cur(p.pos, len(p.tokens))
+//@   invariant len(qid.Parts) > 0 && identsOK(p.source, qid.Parts, len(qid.Parts))
 //@   decreases len(p.tokens) + 1 - p.pos
 
 //@ func parser.(*parser).innerPrimaryExpr
-//@   use perr expr
+//@   use perr exprwf
 //@   requires p != nil && pOK(p.pos, len(p.tokens)) && toksIn(p.source, p.tokens)
 //@   ensures pOK(p.pos, len(p.tokens)) && old(cur(p.pos, len(p.tokens))) <= cur(p.pos, len(p.tokens))
+//@   ensures @progress: result1 == nil ==> old(cur(p.pos, len(p.tokens))) < cur(p.pos, len(p.tokens))
 //@   ensures @notfound: nf(result1) ==> cur(p.pos, len(p.tokens)) == old(cur(p.pos, len(p.tokens)))
-//@   ensures @wf: result1 == nil ==> exprWF(result0)
+//@   ensures @wf: result1 == nil ==> exprOK(p.source, result0)
 //@   assigns p.pos
 //@   decreases remTok(p.pos, len(p.tokens)), 2
 
 //@ func parser.(*parser).primaryExpr
-//@   use perr expr
+//@   use perr exprwf
 //@   requires p != nil && pOK(p.pos, len(p.tokens)) && toksIn(p.source, p.tokens)
 //@   ensures pOK(p.pos, len(p.tokens)) && old(cur(p.pos, len(p.tokens))) <= cur(p.pos, len(p.tokens))
+//@   ensures @progress: result1 == nil ==> old(cur(p.pos, len(p.tokens))) < cur(p.pos, len(p.tokens))
 //@   ensures @notfound: nf(result1) ==> cur(p.pos, len(p.tokens)) == old(cur(p.pos, len(p.tokens)))
-//@   ensures @wf: result1 == nil ==> exprWF(result0)
+//@   ensures @wf: result1 == nil ==> exprOK(p.source, result0)
 //@   assigns p.pos
 //@   decreases remTok(p.pos, len(p.tokens)), 3
 
 //@ func parser.(*parser).unaryExpr
-//@   use perr expr
+//@   use perr exprwf
 //@   requires p != nil && pOK(p.pos, len(p.tokens)) && toksIn(p.source, p.tokens)
 //@   ensures pOK(p.pos, len(p.tokens)) && old(cur(p.pos, len(p.tokens))) <= cur(p.pos, len(p.tokens))
+//@   ensures @progress: result1 == nil ==> old(cur(p.pos, len(p.tokens))) < cur(p.pos, len(p.tokens))
 //@   ensures @notfound: nf(result1) ==> cur(p.pos, len(p.tokens)) == old(cur(p.pos, len(p.tokens)))
-//@   ensures @wf: result1 == nil ==> exprWF(result0)
+//@   ensures @wf: result1 == nil ==> exprOK(p.source, result0)
 //@   assigns p.pos
 //@   decreases remTok(p.pos, len(p.tokens)), 4
 
 //@ func parser.(*parser).expr
-//@   use perr expr
+//@   use perr exprwf
 //@   requires p != nil && pOK(p.pos, len(p.tokens)) && toksIn(p.source, p.tokens)
 //@   ensures pOK(p.pos, len(p.tokens)) && old(cur(p.pos, len(p.tokens))) <= cur(p.pos, len(p.tokens))
+//@   ensures @progress: result1 == nil ==> old(cur(p.pos, len(p.tokens))) < cur(p.pos, len(p.tokens))
 //@   ensures @notfound: nf(result1) ==> cur(p.pos, len(p.tokens)) == old(cur(p.pos, len(p.tokens)))
-//@   ensures @wf: result1 == nil ==> exprWF(result0)
+//@   ensures @wf: result1 == nil ==> exprOK(p.source, result0)
 //@   assigns p.pos
 //@   decreases remTok(p.pos, len(p.tokens)), 6
 
 //@ func parser.(*parser).exprBinaryTrail
-//@   use perr expr
+//@   use perr exprwf
 //@   requires p != nil && pOK(p.pos, len(p.tokens)) && toksIn(p.source, p.tokens)
 //@   ensures pOK(p.pos, len(p.tokens)) && old(cur(p.pos, len(p.tokens))) <= cur(p.pos, len(p.tokens))
 //@   ensures @notfound: !nf(result1)
-//@   ensures @wf: result1 == nil && exprWF(x) ==> exprWF(result0)
+//@   ensures @wf: result1 == nil && exprOK(p.source, x) ==> exprOK(p.source, result0)
 //@   ensures @progress: old(nextPrec(p.tokens, p.pos)) >= 0 && old(nextPrec(p.tokens, p.pos)) >= minPrecedence ==> cur(p.pos, len(p.tokens)) > old(cur(p.pos, len(p.tokens)))
 //@   assigns p.pos
 //@   decreases remTok(p.pos, len(p.tokens)), 5
 //@ loop 1
 //@   invariant pOK(p.pos, len(p.tokens)) && old(cur(p.pos, len(p.tokens))) <= cur(p.pos, len(p.tokens)) && !nf(finalError)
-//@   invariant finalError == nil && exprWF(old(x)) ==> exprWF(x)
+//@   invariant finalError == nil && exprOK(p.source, old(x)) ==> exprOK(p.source, x)
 //@   invariant old(nextPrec(p.tokens, p.pos)) >= 0 && old(nextPrec(p.tokens, p.pos)) >= minPrecedence ==> cur(p.pos, len(p.tokens)) > old(cur(p.pos, len(p.tokens))) || p.pos == old(p.pos)
 //@   decreases len(p.tokens) + 1 - p.pos
 //@ loop 2
 //@   invariant pOK(p.pos, len(p.tokens)) && old(cur(p.pos, len(p.tokens))) < cur(p.pos, len(p.tokens)) && !nf(finalError)
-//@   invariant finalError == nil && exprWF(old(x)) ==> exprWF(x) && exprWF(y)
+//@   invariant finalError == nil && exprOK(p.source, old(x)) ==> exprOK(p.source, x) && exprOK(p.source, y)
 //@   invariant len(p.tokens) + 1 - p.pos < variant(1)
 //@   decreases remTok(p.pos, len(p.tokens))
 
 //@ func parser.(*parser).exprList
-//@   use perr expr
+//@   use perr exprwf
 //@   requires p != nil && pOK(p.pos, len(p.tokens)) && toksIn(p.source, p.tokens)
 //@   ensures pOK(p.pos, len(p.tokens)) && old(cur(p.pos, len(p.tokens))) <= cur(p.pos, len(p.tokens))
 //@   ensures @notfound: nf(result1) ==> cur(p.pos, len(p.tokens)) == old(cur(p.pos, len(p.tokens))) && len(result0) == 0
-//@   ensures @wf: result1 == nil ==> len(result0) >= 1 && exprWFL(result0, len(result0))
+//@   ensures @wf: result1 == nil ==> len(result0) >= 1 && exprsOK(p.source, result0, len(result0))
+//@   ensures @progress: result1 == nil ==> old(cur(p.pos, len(p.tokens))) < cur(p.pos, len(p.tokens))
 //@   ensures @ok.restore: nf(err) ==> p.pos == restorePos
 //@   assigns p.pos
 //@   decreases remTok(p.pos, len(p.tokens)), 7
 //@ loop 1
+//@   invariant pOK(p.pos, len(p.tokens)) && old(cur(p.pos, len(p.tokens))) < cur(p.pos, len(p.tokens))
+//@   invariant len(result) >= 1 && exprsOK(p.source, result, len(result))
+//@   decreases len(p.tokens) + 1 - p.pos
+
+// ---------------------------------------------------------------- parser.go: tabular operators
+
+//@ func parser.(*BasicLit).IsFloat
+//@   requires lit != nil
+//@   ensures result == (lit.Kind == TokenNumber && strings.ContainsAny(lit.Value, ".eE"))
+
+//@ func parser.(*BasicLit).IsInteger
+//@   requires lit != nil
+//@   ensures result == (lit.Kind == TokenNumber && !strings.ContainsAny(lit.Value, ".eE"))
+
+//@ func parser.(*parser).rowCount
+//@   use perr exprwf pwf
+//@   hide expr
+//@   requires p != nil && pOK(p.pos, len(p.tokens)) && toksIn(p.source, p.tokens)
+//@   ensures pOK(p.pos, len(p.tokens)) && old(cur(p.pos, len(p.tokens))) <= cur(p.pos, len(p.tokens))
+//@   ensures @notfound: nf(result1) ==> cur(p.pos, len(p.tokens)) == old(cur(p.pos, len(p.tokens)))
+//@   ensures @wf: result1 == nil ==> exprOK(p.source, result0)
+//@   ensures @integer: result1 == nil ==> rowCountOK(result0)
+//@   assigns p.pos
+
+//@ func parser.(*parser).sortTerm
+//@   use perr exprwf pwf
+//@   hide expr
+//@   requires p != nil && pOK(p.pos, len(p.tokens)) && toksIn(p.source, p.tokens)
+//@   ensures pOK(p.pos, len(p.tokens)) && old(cur(p.pos, len(p.tokens))) <= cur(p.pos, len(p.tokens))
+//@   ensures @notfound: nf(result1) ==> cur(p.pos, len(p.tokens)) == old(cur(p.pos, len(p.tokens))) && result0 == nil
+//@   ensures @wf: result1 == nil ==> typeis(result0, "SortTerm") && exprOK(p.source, result0.X) && old(cur(p.pos, len(p.tokens))) < cur(p.pos, len(p.tokens))
+//@   ensures @defaults: result1 == nil && !spanValid(result0.AscDescSpan) && !spanValid(result0.NullsSpan) ==> !result0.Asc && !result0.NullsFirst
+//@   ensures @ascnulls: result1 == nil && spanValid(result0.AscDescSpan) && !spanValid(result0.NullsSpan) ==> result0.NullsFirst == result0.Asc
+//@   ensures @ok.nulls: result1 == nil && spanValid(term.NullsSpan) ==> tok.Value == "nulls" && term.NullsSpan.Start == tok.Span.Start && term.NullsSpan.End == tok2.Span.End && term.NullsFirst == (tok2.Value == "first") && (tok2.Value == "first" || tok2.Value == "last")
+//@   assigns p.pos
+
+//@ func parser.(*parser).countOperator
+//@   use perr exprwf pwf
+//@   hide expr
+//@   requires p != nil && pOK(p.pos, len(p.tokens)) && toksIn(p.source, p.tokens) && tokIn(p.source, pipe) && tokIn(p.source, keyword)
+//@   ensures pOK(p.pos, len(p.tokens)) && old(cur(p.pos, len(p.tokens))) <= cur(p.pos, len(p.tokens))
+//@   ensures @notfound: !nf(result1)
+//@   ensures @wf: result1 == nil ==> pipeOpWF(p.source, result0) && spanSafe(result0)
+//@   assigns p.pos
+
+//@ func parser.(*parser).whereOperator
+//@   use perr exprwf pwf
+//@   hide expr
+//@   requires p != nil && pOK(p.pos, len(p.tokens)) && toksIn(p.source, p.tokens) && tokIn(p.source, pipe) && tokIn(p.source, keyword)
+//@   ensures pOK(p.pos, len(p.tokens)) && old(cur(p.pos, len(p.tokens))) <= cur(p.pos, len(p.tokens))
+//@   ensures @notfound: !nf(result1)
+//@   ensures @wf: result1 == nil ==> pipeOpWF(p.source, result0) && spanSafe(result0)
+//@   assigns p.pos
+
+//@ func parser.(*parser).sortOperator
+//@   use perr exprwf pwf
+//@   hide expr
+//@   requires p != nil && pOK(p.pos, len(p.tokens)) && toksIn(p.source, p.tokens) && tokIn(p.source, pipe) && tokIn(p.source, keyword)
+//@   ensures pOK(p.pos, len(p.tokens)) && old(cur(p.pos, len(p.tokens))) <= cur(p.pos, len(p.tokens))
+//@   ensures @notfound: !nf(result1)
+//@   ensures @wf: result1 == nil ==> pipeOpWF(p.source, result0) && spanSafe(result0)
+//@   assigns p.pos
+//@ loop 1
 //@   invariant pOK(p.pos, len(p.tokens)) && old(cur(p.pos, len(p.tokens))) <= cur(p.pos, len(p.tokens))
-//@   invariant len(result) >= 1 && exprWFL(result, len(result))
+//@   invariant typeis(op, "SortOperator") && termsWF(op.Terms, len(op.Terms)) && spanSafeList(op.Terms, len(op.Terms))
+//@   decreases len(p.tokens) + 1 - p.pos
+
+//@ func parser.(*parser).takeOperator
+//@   use perr exprwf pwf
+//@   hide expr
+//@   requires p != nil && pOK(p.pos, len(p.tokens)) && toksIn(p.source, p.tokens) && tokIn(p.source, pipe) && tokIn(p.source, keyword)
+//@   ensures pOK(p.pos, len(p.tokens)) && old(cur(p.pos, len(p.tokens))) <= cur(p.pos, len(p.tokens))
+//@   ensures @notfound: !nf(result1)
+//@   ensures @wf: result1 == nil ==> pipeOpWF(p.source, result0) && spanSafe(result0)
+//@   assigns p.pos
+
+//@ func parser.(*parser).topOperator
+//@   use perr exprwf pwf
+//@   hide expr
+//@   requires p != nil && pOK(p.pos, len(p.tokens)) && toksIn(p.source, p.tokens) && tokIn(p.source, pipe) && tokIn(p.source, keyword)
+//@   ensures pOK(p.pos, len(p.tokens)) && old(cur(p.pos, len(p.tokens))) <= cur(p.pos, len(p.tokens))
+//@   ensures @notfound: !nf(result1)
+//@   ensures @wf: result1 == nil ==> pipeOpWF(p.source, result0) && spanSafe(result0)
+//@   assigns p.pos
+
+//@ func parser.(*parser).extendOperator
+//@   use perr exprwf pwf
+//@   hide expr
+//@   requires p != nil && pOK(p.pos, len(p.tokens)) && toksIn(p.source, p.tokens) && tokIn(p.source, pipe) && tokIn(p.source, keyword)
+//@   ensures pOK(p.pos, len(p.tokens)) && old(cur(p.pos, len(p.tokens))) <= cur(p.pos, len(p.tokens))
+//@   ensures @notfound: !nf(result1)
+//@   ensures @wf: result1 == nil ==> pipeOpWF(p.source, result0) && spanSafe(result0)
+//@   assigns p.pos
+//@ loop 1
+//@   invariant pOK(p.pos, len(p.tokens)) && old(cur(p.pos, len(p.tokens))) <= cur(p.pos, len(p.tokens))
+//@   invariant extColsWF(p.source, op.Cols, len(op.Cols)) && spanSafeList(op.Cols, len(op.Cols))
+//@   decreases len(p.tokens) + 1 - p.pos
+
+//@ func parser.(*parser).extendColumn
+//@   use perr exprwf pwf
+//@   hide expr
+//@   requires p != nil && pOK(p.pos, len(p.tokens)) && toksIn(p.source, p.tokens)
+//@   ensures pOK(p.pos, len(p.tokens)) && old(cur(p.pos, len(p.tokens))) <= cur(p.pos, len(p.tokens))
+//@   ensures @notfound: nf(result1) ==> cur(p.pos, len(p.tokens)) == old(cur(p.pos, len(p.tokens)))
+//@   ensures @wf: result1 == nil ==> typeis(result0, "ExtendColumn") && exprOK(p.source, result0.X) && (typeis(result0.Name, "Ident") || result0.Name == nil) && spanSafe(result0) && old(cur(p.pos, len(p.tokens))) < cur(p.pos, len(p.tokens))
+//@   assigns p.pos
+
+//@ func parser.(*parser).summarizeColumn
+//@   use perr exprwf pwf
+//@   hide expr
+//@   requires p != nil && pOK(p.pos, len(p.tokens)) && toksIn(p.source, p.tokens)
+//@   ensures pOK(p.pos, len(p.tokens)) && old(cur(p.pos, len(p.tokens))) <= cur(p.pos, len(p.tokens))
+//@   ensures @notfound: nf(result1) ==> cur(p.pos, len(p.tokens)) == old(cur(p.pos, len(p.tokens)))
+//@   ensures @wf: result1 == nil ==> typeis(result0, "SummarizeColumn") && exprOK(p.source, result0.X) && (typeis(result0.Name, "Ident") || result0.Name == nil) && spanSafe(result0) && old(cur(p.pos, len(p.tokens))) < cur(p.pos, len(p.tokens))
+//@   assigns p.pos
+
+//@ func parser.(*parser).summarizeOperator
+//@   use perr exprwf pwf
+//@   hide expr
+//@   requires p != nil && pOK(p.pos, len(p.tokens)) && toksIn(p.source, p.tokens) && tokIn(p.source, pipe) && tokIn(p.source, keyword)
+//@   ensures pOK(p.pos, len(p.tokens)) && old(cur(p.pos, len(p.tokens))) <= cur(p.pos, len(p.tokens))
+//@   ensures @notfound: !nf(result1)
+//@   ensures @wf: result1 == nil ==> pipeOpWF(p.source, result0) && spanSafe(result0)
+//@   assigns p.pos
+//@ loop 1
+//@   invariant pOK(p.pos, len(p.tokens)) && old(cur(p.pos, len(p.tokens))) <= cur(p.pos, len(p.tokens))
+//@   invariant sumColsWF(p.source, op.Cols, len(op.Cols)) && spanSafeList(op.Cols, len(op.Cols)) && len(op.GroupBy) == 0
+//@   decreases len(p.tokens) + 1 - p.pos
+//@ loop 2
+//@   invariant pOK(p.pos, len(p.tokens)) && old(cur(p.pos, len(p.tokens))) <= cur(p.pos, len(p.tokens))
+//@   invariant sumColsWF(p.source, op.Cols, len(op.Cols)) && spanSafeList(op.Cols, len(op.Cols))
+//@   invariant sumColsWF(p.source, op.GroupBy, len(op.GroupBy)) && spanSafeList(op.GroupBy, len(op.GroupBy))
+//@   decreases len(p.tokens) + 1 - p.pos
+
+//@ func parser.(*parser).asOperator
+//@   use perr exprwf pwf
+//@   hide expr
+//@   requires p != nil && pOK(p.pos, len(p.tokens)) && toksIn(p.source, p.tokens) && tokIn(p.source, pipe) && tokIn(p.source, keyword)
+//@   ensures pOK(p.pos, len(p.tokens)) && old(cur(p.pos, len(p.tokens))) <= cur(p.pos, len(p.tokens))
+//@   ensures @notfound: !nf(result1)
+//@   ensures @wf: result1 == nil ==> pipeOpWF(p.source, result0) && spanSafe(result0)
+//@   assigns p.pos
+
+//@ func parser.(*parser).renderProperty
+//@   use perr exprwf pwf
+//@   hide expr
+//@   requires p != nil && pOK(p.pos, len(p.tokens)) && toksIn(p.source, p.tokens)
+//@   ensures pOK(p.pos, len(p.tokens)) && old(cur(p.pos, len(p.tokens))) <= cur(p.pos, len(p.tokens))
+//@   ensures @wf: result1 == nil ==> typeis(result0, "RenderProperty") && typeis(result0.Name, "Ident") && exprOK(p.source, result0.Value) && spanSafe(result0) && old(cur(p.pos, len(p.tokens))) < cur(p.pos, len(p.tokens))
+//@   assigns p.pos
+
+//@ func parser.(*parser).renderOperator
+//@   use perr exprwf pwf
+//@   hide expr
+//@   requires p != nil && pOK(p.pos, len(p.tokens)) && toksIn(p.source, p.tokens) && tokIn(p.source, pipe) && tokIn(p.source, keyword)
+//@   ensures pOK(p.pos, len(p.tokens)) && old(cur(p.pos, len(p.tokens))) <= cur(p.pos, len(p.tokens))
+//@   ensures @notfound: !nf(result1)
+//@   ensures @wf: result1 == nil ==> pipeOpWF(p.source, result0) && spanSafe(result0)
+//@   assigns p.pos
+//@ loop 1
+//@   invariant pOK(p.pos, len(p.tokens)) && old(cur(p.pos, len(p.tokens))) <= cur(p.pos, len(p.tokens))
+//@   invariant typeis(op.ChartType, "Ident") && propsWF(op.Props, len(op.Props)) && spanSafeList(op.Props, len(op.Props))
+//@   decreases len(p.tokens) + 1 - p.pos
+
+//@ func parser.(*parser).projectOperator
+//@   use perr exprwf pwf
+//@   hide expr
+//@   trusted mutates a column after appending it to op.Cols (col.Assign, col.X): a store to an embedded node is outside the verified subset
+//@   requires p != nil && pOK(p.pos, len(p.tokens)) && toksIn(p.source, p.tokens) && tokIn(p.source, pipe) && tokIn(p.source, keyword)
+//@   ensures pOK(p.pos, len(p.tokens)) && old(cur(p.pos, len(p.tokens))) <= cur(p.pos, len(p.tokens))
+//@   ensures @notfound: !nf(result1)
+//@   ensures @wf: result1 == nil ==> pipeOpWF(p.source, result0) && spanSafe(result0)
+//@   assigns p.pos
+
+//@ func parser.(*parser).joinOperator
+//@   use perr exprwf pwf
+//@   hide expr
+//@   requires p != nil && pOK(p.pos, len(p.tokens)) && toksIn(p.source, p.tokens) && tokIn(p.source, pipe) && tokIn(p.source, keyword)
+//@   ensures pOK(p.pos, len(p.tokens)) && old(cur(p.pos, len(p.tokens))) <= cur(p.pos, len(p.tokens))
+//@   ensures @notfound: !nf(result1)
+//@   ensures @wf: result1 == nil ==> pipeOpWF(p.source, result0) && spanSafe(result0)
+//@   assigns p.pos
+//@   decreases remTok(p.pos, len(p.tokens)), 8
+
+//@ func parser.(*parser).tabularExpr
+//@   use perr exprwf pwf
+//@   hide expr
+//@   requires p != nil && pOK(p.pos, len(p.tokens)) && toksIn(p.source, p.tokens)
+//@   ensures pOK(p.pos, len(p.tokens)) && old(cur(p.pos, len(p.tokens))) <= cur(p.pos, len(p.tokens))
+//@   ensures @notfound: nf(result1) ==> cur(p.pos, len(p.tokens)) == old(cur(p.pos, len(p.tokens))) && result0 == nil
+//@   ensures @wf: result1 == nil ==> tabWF(p.source, result0) && spanSafe(result0)
+//@   assigns p.pos
+//@   decreases remTok(p.pos, len(p.tokens)), 9
+//@ loop 1
+//@   invariant pOK(p.pos, len(p.tokens)) && old(cur(p.pos, len(p.tokens))) < cur(p.pos, len(p.tokens)) && !nf(finalError)
+//@   invariant typeis(expr, "TabularExpr") && srcWF(expr.Source) && spanSafe(expr.Source)
+//@   invariant finalError == nil ==> opsWFL(p.source, expr.Operators, len(expr.Operators)) && spanSafeList(expr.Operators, len(expr.Operators))
+//@   decreases len(p.tokens) + 1 - p.pos
+
+//@ func parser.(*parser).letStatement
+//@   use perr exprwf pwf
+//@   hide expr
+//@   requires p != nil && pOK(p.pos, len(p.tokens)) && toksIn(p.source, p.tokens)
+//@   ensures pOK(p.pos, len(p.tokens)) && old(cur(p.pos, len(p.tokens))) <= cur(p.pos, len(p.tokens))
+//@   ensures @notfound: nf(result1) ==> cur(p.pos, len(p.tokens)) == old(cur(p.pos, len(p.tokens))) && result0 == nil
+//@   ensures @wf: result1 == nil ==> typeis(result0, "LetStatement") && typeis(result0.Name, "Ident") && exprOK(p.source, result0.X)
+//@   assigns p.pos
+
+// ---------------------------------------------------------------- parser.go: Parse
+
+//@ func parser.firstParse
+//@   inline
+
+//@ func parser.Parse
+//@   use perr exprwf pwf
+//@   hide expr lex
+//@   ensures @wf: result1 == nil ==> stmtsWF(query, result0, len(result0))
+//@ loop 1
+//@   invariant p != nil && p.source == query && toksIn(query, p.tokens) && pOK(p.pos, len(p.tokens)) && p.pos <= len(p.tokens)
+//@   invariant resultError == nil ==> stmtsWF(query, result, len(result))
+//@   invariant forall(r, 0, old(alloc()), fieldheap("parser", "pos")[r] == old(fieldheap("parser", "pos"))[r])
+//@   invariant forall(r, 0, old(alloc()), fieldheap("parser", "source")[r] == old(fieldheap("parser", "source"))[r])
+//@   invariant forall(r, 0, old(alloc()), fieldheap("parser", "tokens")[r] == old(fieldheap("parser", "tokens"))[r])
+//@   invariant forall(r, 0, old(alloc()), fieldheap("parser", "splitKind")[r] == old(fieldheap("parser", "splitKind"))[r])
+//@   invariant forall(r, 0, old(alloc()), fieldheap("scanner", "pos")[r] == old(fieldheap("scanner", "pos"))[r])
+//@   invariant forall(r, 0, old(alloc()), fieldheap("scanner", "last")[r] == old(fieldheap("scanner", "last"))[r])
+//@   invariant forall(r, 0, old(alloc()), fieldheap("scanner", "s")[r] == old(fieldheap("scanner", "s"))[r])
+//@   invariant forall(r, 0, old(alloc()), fieldheap("strings.Builder", "out")[r] == old(fieldheap("strings.Builder", "out"))[r])
 //@   decreases len(p.tokens) + 1 - p.pos
